@@ -267,9 +267,11 @@ type thread struct {
 	obs     []string
 	steps   int
 	panic   interface{}
+	obsHash uint64 // hash of everything the thread has observed of the shared state so far
 }
 
 type lockState struct {
+	version uint64
 	writer  int // thread id holding the write lock, -1 none
 	readers map[int]int
 	vc      vclock // joined clocks of write releases
@@ -285,6 +287,7 @@ type access struct {
 type varState struct {
 	lastWrite *access
 	reads     []access
+	version   uint64 // hash chain over the writes (who wrote, at which of its steps)
 }
 
 // Point describes one scheduling decision of an execution.
@@ -307,18 +310,20 @@ type Execution struct {
 	Obs       map[string][]string // thread name -> observations
 	Trace     []string
 	Horizon   bool
+	Keys      []string // canonical global state before each scheduling decision (for state-key pruning)
 }
 
 type runtime struct {
-	threads []*thread
-	cur     *thread
-	last    *thread
-	yield   chan struct{}
-	locks   map[interface{}]*lockState
-	vars    map[string]*varState
-	prefix  []int
-	x       *Execution
-	nsteps  int
+	threads   []*thread
+	cur       *thread
+	last      *thread
+	yield     chan struct{}
+	locks     map[interface{}]*lockState
+	lockOrder []interface{}
+	vars      map[string]*varState
+	prefix    []int
+	x         *Execution
+	nsteps    int
 }
 
 var active *runtime
@@ -329,6 +334,7 @@ func (rt *runtime) lockOf(l interface{}) *lockState {
 		n := len(rt.threads)
 		ls = &lockState{writer: -1, readers: map[int]int{}, vc: make(vclock, n), rvc: make(vclock, n)}
 		rt.locks[l] = ls
+		rt.lockOrder = append(rt.lockOrder, l)
 	}
 	return ls
 }
@@ -368,7 +374,60 @@ func (rt *runtime) release(l interface{}, read bool) {
 		ls.vc.join(t.vc)
 	}
 	t.vc[t.id]++
+	if !read {
+		ls.version = mix(ls.version, uint64(t.id)+1, uint64(t.steps))
+	}
 	rt.x.Trace = append(rt.x.Trace, fmt.Sprintf("%s: unlock(read=%v)", t.name, read))
+}
+
+func mix(h uint64, vals ...uint64) uint64 {
+	for _, v := range vals {
+		h ^= v + 0x9e3779b97f4a7c15 + (h << 6) + (h >> 2)
+	}
+	return h
+}
+
+func strHash(s string) uint64 {
+	h := uint64(1469598103934665603)
+	for i := 0; i < len(s); i++ {
+		h ^= uint64(s[i])
+		h *= 1099511628211
+	}
+	return h
+}
+
+// stateKey is the canonical form of the global state before a scheduling
+// decision: per thread (finished, steps taken, hash of what it observed,
+// pending operation), per instrumented variable the hash chain of its writes,
+// per lock its holder set. Threads are deterministic functions of what they
+// observe and all shared mutable state is behind instrumented operations, so
+// equal keys have equal futures (lock and variable identities are rendered by
+// name / first-use order, not by address).
+func (rt *runtime) stateKey() string {
+	var sb strings.Builder
+	for _, t := range rt.threads {
+		fmt.Fprintf(&sb, "%v:%d:%x:%d:%s:%v|", t.done, t.steps, t.obsHash, t.pending.kind, t.pending.name, t.pending.write)
+	}
+	var names []string
+	for n := range rt.vars {
+		names = append(names, n)
+	}
+	sort.Strings(names)
+	for _, n := range names {
+		fmt.Fprintf(&sb, "%s=%x;", n, rt.vars[n].version)
+	}
+	for i, l := range rt.lockOrder {
+		ls := rt.locks[l]
+		var rs []int
+		for r, c := range ls.readers {
+			if c > 0 {
+				rs = append(rs, r)
+			}
+		}
+		sort.Ints(rs)
+		fmt.Fprintf(&sb, "L%d:%d:%v:%x;", i, ls.writer, rs, ls.version)
+	}
+	return sb.String()
 }
 
 func (rt *runtime) enabled(t *thread) bool {
@@ -395,10 +454,24 @@ func (rt *runtime) apply(t *thread) {
 		ls.writer = t.id
 		t.vc.join(ls.vc)
 		t.vc.join(ls.rvc)
+		t.obsHash = mix(t.obsHash, 1, ls.version)
 	case opRLock:
 		ls := rt.lockOf(o.lock)
 		ls.readers[t.id]++
 		t.vc.join(ls.vc)
+		t.obsHash = mix(t.obsHash, 2, ls.version)
+	case opYield:
+		// sync.Map / sync.Pool operations (named "sync.") read and may write the object
+		if strings.HasPrefix(o.name, "sync.") {
+			obj := o.name[strings.Index(o.name, "@"):]
+			vs := rt.vars[obj]
+			if vs == nil {
+				vs = &varState{}
+				rt.vars[obj] = vs
+			}
+			t.obsHash = mix(t.obsHash, 3, vs.version)
+			vs.version = mix(vs.version, uint64(t.id)+1, uint64(t.steps), strHash(o.name))
+		}
 	case opAccess:
 		vs := rt.vars[o.name]
 		if vs == nil {
@@ -409,7 +482,9 @@ func (rt *runtime) apply(t *thread) {
 		if vs.lastWrite != nil && vs.lastWrite.tid != t.id && !vs.lastWrite.clock.leq(t.vc) {
 			rt.x.Races = append(rt.x.Races, fmt.Sprintf("%s  ||  %s", vs.lastWrite.what, me.what))
 		}
+		t.obsHash = mix(t.obsHash, 4, strHash(o.name), vs.version)
 		if o.write {
+			vs.version = mix(vs.version, uint64(t.id)+1, uint64(t.steps))
 			for _, r := range vs.reads {
 				if r.tid != t.id && !r.clock.leq(t.vc) {
 					rt.x.Races = append(rt.x.Races, fmt.Sprintf("%s  ||  %s", r.what, me.what))
@@ -480,6 +555,7 @@ func run(threads []Thread, prefix []int, horizon int) *Execution {
 			}
 			break
 		}
+		rt.x.Keys = append(rt.x.Keys, rt.stateKey())
 		choice := 0
 		i := len(rt.x.Points)
 		if i < len(prefix) {
@@ -563,6 +639,7 @@ type Result struct {
 	SampleTrace     []string
 	InterleavedRuns int // executions with at least one context switch between threads before either finished
 	BudgetExhausted bool
+	States          int // distinct global states (state-key pruning)
 }
 
 func preemptions(x *Execution, upto int) int {
@@ -622,6 +699,44 @@ func Explore(sc Scenario, maxBound int, budget int) Result {
 		}
 		res.BoundCompleted = bound
 	}
+	return res
+}
+
+// ExploreAll enumerates the interleavings of the scenario without a
+// preemption bound, pruning with the canonical state key: the alternatives of a
+// scheduling decision are explored only the first time its global state is
+// reached (depth-first, so the first visit explores the whole subtree). The
+// result is complete (Unbounded = true) unless the budget of executions is hit.
+func ExploreAll(sc Scenario, budget int) Result {
+	res := Result{Scenario: sc.Name, Outcomes: map[string]int{}, Findings: map[string]*Finding{}, BoundCompleted: -1}
+	seen := map[string]bool{}
+	complete := true
+	var rec func(prefix []int)
+	rec = func(prefix []int) {
+		if res.Schedules >= budget {
+			complete = false
+			return
+		}
+		sc.Setup()
+		x := run(sc.Threads(), prefix, 10000)
+		res.Schedules++
+		judge(sc, x, &res)
+		for i := len(prefix); i < len(x.Points); i++ {
+			if i < len(x.Keys) {
+				if seen[x.Keys[i]] {
+					break
+				}
+				seen[x.Keys[i]] = true
+			}
+			for alt := 1; alt < len(x.Points[i].Enabled); alt++ {
+				rec(append(append([]int(nil), x.Choices[:i]...), alt))
+			}
+		}
+	}
+	rec(nil)
+	res.Unbounded = complete
+	res.BudgetExhausted = !complete
+	res.States = len(seen)
 	return res
 }
 
